@@ -3,10 +3,11 @@
 Input : [timeout, [stop instant, ...], broken, suppress, store, nObs, setUp, body, tearDown] (+ ['real'] = on the real reactor)
   stage      = [[cleanup stage, ...], [side, ...], beh]    (the cleanups it registers at its start, in order; any depth)
   side       = ['junk', d] | 'logerr' | 'dropfailed' | 'flush' | 'expect'
-  beh        = 'ret' | ['ret', v] | ['raise', k] | ['fire', d] | ['fire', d, v] | ['faild', d, k] | 'never'
+  beh        = 'ret' | ['ret', v] | ['same', k] | ['raise', k] | ['fire', d] | ['fire', d, v] | ['faild', d, k] | 'never'
+               ['same', k]: the stage returns the very Deferred object that the k-th stage started in this run returned
                v = a value token of harness/props/c15.py (objects with a hostile ==, falsy values; no v = None): what the stage returns /
                its Deferred fires with.  The model never looks at it.
-  k          = err | fail | skip | ki (KeyboardInterrupt) | exit (SystemExit)
+  k          = err | fail | skip | ki (KeyboardInterrupt) | exit (SystemExit) | genexit (GeneratorExit)
 Trace : [events, stopRequested, raised, [[name, time, observers], ...], [live, ...], leftover, pending, obsRestored, realStops, finalTime]
 (see TTV/Drv/C14.lean).  The interrupts are `reactor.stop()` calls scheduled before `case.run(result)`.
 """
@@ -15,7 +16,8 @@ from harness.core import Prop
 from harness.props.c15 import VALUES, VALUE_NAMES, value_of      # the value tokens: objects with a hostile ==, falsy values
 
 EXC = ['err', 'fail', 'skip']
-UNCLAIMED = ['ki', 'exit']                                  # KeyboardInterrupt, SystemExit
+UNCLAIMED = ['ki', 'exit', 'genexit']                       # KeyboardInterrupt, SystemExit, GeneratorExit
+CLEANUP_KW = ['f', None, 'fn', 'function', 'self', 'args', 'kwargs', 'x']   # names of the keyword argument of a cleanup (None: none)
 REAL_UNIT = 0.04                                            # seconds per time unit in the real-reactor scenarios
 
 
@@ -70,6 +72,29 @@ class C14(Prop):
             'exceptions, and scenarios on the REAL Twisted reactor (feature reactor:real; five of them also in quick). non-trivial = at '
             'least one stage returns a Deferred or has a side effect; distinct = distinct input S-expression')
     assumptions = [
+        'cleanups are registered with positional and one keyword argument whose name cycles (by registration number + timeout) through '
+        'f, fn, function, self, args, kwargs, x and none - names of parameters of the functions the arguments travel through '
+        '(maybeDeferred(f, ...), _run_user(function, ...), addCleanup(fn, ...)); the cleanup checks that it receives exactly them; the '
+        'model ignores arguments',
+        'LIMIT OF THE MODEL (audit C14 v1): an interrupt is "reactor.stop() requested at an instant of virtual time" (a delayed call). The '
+        'runtime behaviour it cannot exhibit: a real SIGINT landing in the reactor iteration in which the run ends (while a synchronous '
+        'stage runs, inside the delayed call that fires the last Deferred, or so shortly before it / before the timeout call that the '
+        'queued stop and that call are processed in one iteration): Twisted\'s handler only queues reactor.callFromThread(reactor.stop), '
+        'the result that was set wins, result.stop() is not called, and with the plain runner the queued stop survives in '
+        'reactor.threadCallQueue (not a delayed call, not junk) and interrupts the NEXT test. threadCallQueue is not modelled; the '
+        'same-instant tie between an interrupt and the end of the chain is decided in the model by the reactor\'s call order and left to '
+        'the correspondence; recorded, not repaired',
+        'borderline, outside the stated domain (audit C14), not modelled: skip reasons that are not str; errors logged without a Failure '
+        'are not counted; a failed Deferred still referenced at the end counts as unhandled; ForBrokenTwisted executes a left-over '
+        'callLater(0) in its obligatory iterations (modelled: stage-run-by-shake-out-iteration) ; callFromThread / system event triggers '
+        'left by a stage are not junk; only the LAST failing cleanup\'s exception is kept (modelled as is); @unittest.expectedFailure on a '
+        'Deferred-returning test; a stage blocking synchronously beyond the timeout; the spinner\'s own timeout call reported as junk '
+        'after an interrupt (modelled); after a timeout / interrupt dropped failed Deferreds are logged late',
+        'aliasing: a stage may return the very Deferred an earlier stage returned (beh same; decoded as "returns at once": the runner '
+        'waits on a Deferred of its own since fix <commit>); GeneratorExit raised by / failing the Deferred of any stage is the third '
+        'unclaimed exception next to KeyboardInterrupt and SystemExit',
+        'after Spinner.run has left reactor.run() the callbacks it hung on the chain\'s final Deferred are dead (fix <commit>): a chain '
+        'that ends during _clean\'s shake-out iterations records nothing (model: Chain.over / finishChain)',
         'values: 30% of the returning / firing stages return (fire with) a value other than None - an object equal to everything, mock.ANY, '
         'one whose == has no truth value, 0, 0.0, False, empty str/list/tuple/dict, a falsy object, an int; the model ignores the value (the '
         'codec drops it), i.e. the claim is that the runner never looks at it; every quick run covers value x (returned | fired at 0 | fired '
@@ -112,7 +137,11 @@ class C14(Prop):
                 'TTV/Model/Reactor.lean + AsyncRun.lean, the harness and harness/vreactor.py; real-reactor coverage = 11 scenarios '
                 '(feature reactor:real: 5 per quick run, 11 per thorough run), everything else on the virtual-time reactor; at the very '
                 'instant at which the chain is over, whether a simultaneous interrupt wins is decided by the reactor\'s call order '
-                '(covered by the correspondence, not by a readable theorem); expected failures are outside the generated domain',
+                '(covered by the correspondence, not by a readable theorem); expected failures are outside the generated domain. LIMIT OF THE '
+                'MODEL: interrupts are reactor.stop() requests at instants of virtual time (delayed calls); a real SIGINT whose queued '
+                'callFromThread(reactor.stop) lands in the reactor iteration in which the run ends is lost (success, no result.stop()) and, '
+                'with the plain runner, stays in reactor.threadCallQueue and interrupts the next test - threadCallQueue is not modelled, the '
+                'model cannot exhibit this (audit C14 v1, recorded, not repaired)',
         'technique': 'Lean 4 invariant proofs over a discrete-event model (sorted call queue with dynamic scheduling, fuelled reactor loop, '
                      'potential-function termination argument, chain invariant through suspensions), executable spec shared with a '
                      'differential correspondence check against the real code on a virtual-time reactor',
@@ -217,7 +246,7 @@ class C14(Prop):
             m = (lambda i: (lambda event: None))(i)
             markers.append(m)
             pub.addObserver(m)
-        slog, live = [], []
+        slog, live, made = [], [], []
         counts = {'scheduled': 0, 'ran': 0}
         numbering = itertools.count()
 
@@ -230,8 +259,19 @@ class C14(Prop):
             return call
 
         def register(case, cleanups):
+            # cleanups are registered with positional AND keyword arguments; the keyword's name cycles through names that collide
+            # with parameters of the functions the arguments travel through (maybeDeferred(f, ...), _run_user(function, ...),
+            # addCleanup(fn, ...)): cleanup number n of a run with timeout T gets CLEANUP_KW[(n + T) % len(CLEANUP_KW)]
             for c in cleanups:
-                case.addCleanup(do, case, ['cleanup', next(numbering)], c)
+                n = next(numbering)
+                kw = CLEANUP_KW[(n + T) % len(CLEANUP_KW)]
+                case.addCleanup(do_cleanup, case, ['cleanup', n], c, **({kw: ('kw', n)} if kw else {}))
+
+        def do_cleanup(case, name, stage, **kwargs):
+            kw = CLEANUP_KW[(name[1] + T) % len(CLEANUP_KW)]
+            if kwargs != ({kw: ('kw', name[1])} if kw else {}):
+                raise AssertionError('cleanup %r called with keyword arguments %r' % (name, kwargs))
+            return do(case, name, stage)
 
         def do(case, name, stage):
             cleanups, sides, beh = stage
@@ -249,15 +289,20 @@ class C14(Prop):
                     case.expectThat(1, Equals(2))
                 else:
                     later(s[1], mine())
+            made.append(None)
             if beh == 'ret':
                 return None
             if beh[0] == 'ret':
                 return value_of(beh[1])
+            if beh[0] == 'same':
+                # the very Deferred object the beh[1]-th stage of this run returned (None if it returned none): aliasing between stages
+                return made[beh[1]] if beh[1] < len(made) else None
             if beh == 'never':
-                return defer.Deferred()
+                made[-1] = defer.Deferred()
+                return made[-1]
             if beh[0] == 'raise':
                 raise self._exc(case, beh[1], name)
-            d = defer.Deferred()
+            d = made[-1] = defer.Deferred()
             if beh[0] == 'fire':
                 later(beh[1], d.callback, value_of(beh[2]) if len(beh) > 2 else None)
             else:
@@ -326,7 +371,7 @@ class C14(Prop):
             return case.failureException(str(name))
         if k == 'skip':
             return unittest.SkipTest(str(name))
-        e = KeyboardInterrupt() if k == 'ki' else SystemExit(3)
+        e = KeyboardInterrupt() if k == 'ki' else SystemExit(3) if k == 'exit' else GeneratorExit()
         e.verif_generated = True
         return e
 
@@ -369,6 +414,12 @@ class C14(Prop):
                 for where in range(4):
                     b = [beh if where == i else 'ret' for i in range(4)]
                     out.append([5, [], False, True, True, 0, st(b[0]), st(b[1], cleanups=[st('ret'), st(b[3])]), st(b[2])])
+        # stages returning the very Deferred an earlier stage returned (stage numbers: setUp 0, test 1, tearDown 2, cleanups 3, 4)
+        for first in (['fire', 1], ['fire', 0], ['faild', 1, 'err']):
+            for broken in (False, True):
+                out.append([5, [], broken, True, True, 0, st(first), st(['same', 0]), st(['same', 0])])
+                out.append([5, [], broken, True, True, 0, st('ret'), st(first, cleanups=[st(['same', 1]), st(['same', 1])]), st(['same', 1])])
+                out.append([5, [], broken, True, True, 0, st('ret'), st('ret', cleanups=[st(['same', 3]), st(first)]), st(['same', 1])])
         return out
 
     # ----- generators
@@ -400,7 +451,7 @@ class C14(Prop):
         if rng.random() < 0.3:
             # the stage returns a value / its Deferred fires with a value other than None: the runner must not look at it
             if beh == 'ret':
-                beh = ['ret', rng.randrange(len(VALUES) + 1)]
+                beh = ['ret', rng.randrange(len(VALUES) + 1)] if rng.random() < 0.7 else ['same', rng.randrange(4)]
             elif beh[0] == 'fire':
                 beh = beh + [rng.randrange(len(VALUES) + 1)]
         if depth == 0:
@@ -511,6 +562,8 @@ class C14(Prop):
         f = ['reactor:' + ('real' if len(inp) > 9 else 'virtual'), 'variant:' + ('broken' if broken else 'plain'),
              'suppress=%s' % suppress, 'store=%s' % store, 'observers=%d' % n_obs, 'stops=%d' % len(stops),
              'cleanups=%d' % min(len(stages) - 3, 6), 'cleanup-nesting=%d' % (max(self.depth(m) for m in inp[6:9]) - 1)]
+        for n in range(len(stages) - 3):
+            f.append('cleanup-keyword:' + str(CLEANUP_KW[(n + T) % len(CLEANUP_KW)]))
         for s in stages:
             f.append('beh:' + (s[2] if isinstance(s[2], str) else s[2][0] + ('-' + s[2][-1] if s[2][0] in ('raise', 'faild') else '')))
             if isinstance(s[2], list) and ((s[2][0] == 'ret') or (s[2][0] == 'fire' and len(s[2]) > 2)):
@@ -576,7 +629,7 @@ class C14(Prop):
         if isinstance(beh, list) and beh[0] == 'faild':
             yield [cleanups, sides, ['raise', beh[2]]]
             yield [cleanups, sides, ['fire', beh[1]]]
-        if isinstance(beh, list) and beh[-1] == 'exit':
+        if isinstance(beh, list) and beh[-1] in ('exit', 'genexit'):
             yield [cleanups, sides, beh[:-1] + ['ki']]
         if isinstance(beh, list) and beh[-1] in ('fail', 'skip'):
             yield [cleanups, sides, beh[:-1] + ['err']]
